@@ -983,6 +983,23 @@ class SqlSite:
     def receiver(self):
         return dotted_name(self.call.func.value)
 
+    def column_values(self, flow=None):
+        """For an INSERT: {column name: Python expression bound to it} through the statement's parameter
+        references (`:name` or `?`), whatever the parameters are called; literal SQL values are skipped."""
+        st = self.stmt
+        if st is None or st.kind != "insert":
+            return {}
+        vals = st.values if st.values is not None else ([c[0] for c in st.select.columns] if st.select is not None and not st.select.sources else None)
+        if vals is None or len(vals) != len(st.columns):
+            return {}
+        out = {}
+        for col, v in zip(st.columns, vals):
+            if isinstance(v, tuple) and v and v[0] == "param":
+                e = self.param(v[1], flow)
+                if e is not None:
+                    out[col] = e
+        return out
+
     def param(self, ref, flow=None):
         """Python expression bound to an SQL parameter: ref is the position of a `?` (int) or the
         name of a `:name`; the parameters are a literal tuple / list / dict.  None if not resolvable."""
